@@ -370,6 +370,27 @@ def t2(run, T):
                 mid = ids_here[0][i] if ids_here and i < len(ids_here[0]) else None
                 mcl = [c[i] if len(c) == k else (c[0] if c else None) for c in cls_here]
                 emitted_list.append((mid, [c for c in mcl if c]))
+        # the same on the fully inlined expression of get_defs (any nesting of helper constructors): every
+        # `marker(attributes, children)` node with the string constants of its id(..) and of the class(..) of its children
+        from ..exprs import inline_calls
+        inl = []
+        try:
+            for r in Expr(prog, gdp).returns():
+                tree = inline_calls(prog, r, depth=6)
+                found = []
+                mentions(tree, lambda z: z[0] == "call" and re.search(r"svg::tags::(commons::)?marker$", z[1]) and len(z[2]) >= 2 and found.append(z) and False)
+                for mk in found:
+                    idv, clv = [], []
+                    mentions(mk[2][0], lambda z: z[0] == "call" and re.search(r"attribute_macros::commons::id$", z[1]) and z[2] and
+                             strip(z[2][0])[0] == "const" and idv.append(strip(z[2][0])[2]) and False)
+                    mentions(mk[2][1], lambda z: z[0] == "call" and re.search(r"attribute_macros::commons::class$", z[1]) and z[2] and
+                             strip(z[2][0])[0] == "const" and clv.append(strip(z[2][0])[2]) and False)
+                    if len(idv) == 1:
+                        inl.append((idv[0], clv))
+        except Exception:
+            inl = []
+        if len(inl) >= len([m for m, _ in emitted_list if m]) and inl:
+            emitted_list = inl
     emitted = {m for m, _ in emitted_list if m}
     dup = sorted({m for m, _ in emitted_list if m and [x for x, _ in emitted_list].count(m) > 1})
     if dup:
